@@ -433,12 +433,24 @@ def peer_job(args: tuple[Any, ...]) -> dict[str, Any]:
     from .. import world as _world
 
     _world.DEFAULT_DEBUG[0] = len(args) > 3 and bool(args[3])  # the same sequence with debug logging requested
+    recycle = len(args) > 4 and bool(args[4])  # a transport that recycles its receive buffer; frames arrive in 3-byte reads
+    _world.RECYCLE_RX[0] = recycle
     out: dict[str, Any] = {"evals": 1, "viol": []}
-    w, probe = connected(noise)
+    try:
+        w, probe = connected(noise)
+    finally:
+        _world.RECYCLE_RX[0] = False
     try:
         n0 = len(w.sent_frames())
         frames = [raw_frame(w, 9999, b"q") if a == "UK" else w.dframe(mk(PEER[a])) for a in seq]  # type: ignore[arg-type]
-        if one_chunk:
+        if recycle:
+            blob = b"".join(frames)
+            for i in range(0, len(blob), 3):
+                if w.sock is None or w.sock.closed:
+                    break
+                w.io_chunk(w.sock, blob[i : i + 3])
+                w.drain()
+        elif one_chunk:
             w.io_chunk(w.sock, b"".join(frames))
             w.drain()
         else:
@@ -459,7 +471,7 @@ def peer_job(args: tuple[Any, ...]) -> dict[str, Any]:
         ids = env.proto_ids()
         sent = w.sent_frames()[n0:]
         got = [ids.get(t, str(t)) for t, _ in sent]
-        key = f"peer:{'noise' if noise else 'plain'}{':debug' if _world.DEFAULT_DEBUG[0] else ''}:{'+'.join(seq)}:{'one-chunk' if one_chunk else 'separate'}"
+        key = f"peer:{'noise' if noise else 'plain'}{':debug' if _world.DEFAULT_DEBUG[0] else ''}{':recycled-rx' if recycle else ''}:{'+'.join(seq)}:{'one-chunk' if one_chunk else 'separate'}"
         if got != exp:
             out["viol"].append({"key": key, "clause": f"C12:peer:device sent {list(seq)}; client wrote {got}, expected {exp}", "noise": noise, "seq": list(seq), "one_chunk": one_chunk})
             return out
@@ -509,6 +521,7 @@ def run(tier: str, seed: int) -> Result:
     seqs = [s for n in (1, 2, 3) for s in itertools.product(alph, repeat=n)]
     jobs_c: list[tuple[Any, ...]] = [(noise, s, oc) for noise in (False, True) for s in seqs for oc in (False, True)]
     jobs_c += [(noise, s, True, True) for noise in (False, True) for s in seqs if len(s) <= 2]
+    jobs_c += [(noise, s, False, False, True) for noise in (False, True) for s in seqs if len(s) <= 2]
     jobs_b2 = [(3, p, 25) for p in range(25)]
     jobs_c2: list[tuple[bool, bool, tuple[str, ...], bool]] = []
     for noise in (False, True):
